@@ -420,7 +420,7 @@ void vd_violation(const char *fmt, ...)
     snprintf(path, sizeof(path), "%s/%s-%ld.case", VD.outdir ? VD.outdir : ".", VD.prop, VD.violations);
     f = fopen(path, "w");
     if (f) {
-        fprintf(f, "# property %s\n# ", VD.prop);
+        fprintf(f, "# property %s\n# mode %s\n# ", VD.prop, VD.mode ? VD.mode : "?");
         va_start(ap, fmt); vfprintf(f, fmt, ap); va_end(ap);
         fprintf(f, "\n%s\n", VD.curline ? VD.curline : "");
         fclose(f);
